@@ -205,7 +205,8 @@ pub fn run(args: &Args) -> i32 {
     };
     let deep_depth = env_usize("C18_DEEP").unwrap_or(args.tier.pick(8, 12));
     let broad_depth = env_usize("C18_BROAD").unwrap_or(args.tier.pick(3, 5));
-    let budget = env_usize("C18_BUDGET").map(|x| x as u64).unwrap_or(args.tier.pick(60_000, 500_000));
+    let budget = env_usize("C18_BUDGET").map(|x| x as u64).unwrap_or(args.tier.pick(35_000, 500_000));
+    let budget_broad = env_usize("C18_BUDGET").map(|x| x as u64).unwrap_or(args.tier.pick(50_000, 500_000));
     let max_wall = env_usize("C18_MAX_WALL").map(|x| x as f64).unwrap_or(args.tier.pick(45.0, 540.0));
     // Explored-state persistence: quick saves one representative per shape class; thorough saves
     // every distinct MigrationState reached within the stated number of events (the size of the
@@ -218,11 +219,18 @@ pub fn run(args: &Args) -> i32 {
     };
     let passes = vec![
         Pass { name: "deep", inits: DEEP_INITS.to_vec(), depth_max: deep_depth, budget, max_wall, persist: persist_deep },
-        Pass { name: "broad", inits: (0..125u8).collect(), depth_max: broad_depth, budget, max_wall, persist: persist_broad },
+        Pass { name: "broad", inits: (0..125u8).collect(), depth_max: broad_depth, budget: budget_broad, max_wall, persist: persist_broad },
     ];
     let persist_mode = persist_deep;
     let opts = Opts { differential: true, probe: true, persist: persist_mode, probe_every_height: !quick };
-    let groups: Vec<(Dag, u8)> = dags.iter().flat_map(|d| profiles.iter().map(move |p| (*d, *p))).collect();
+    // Quick runs the two non-topological chain orders under the two profiles with mixed / tight
+    // expiries only (the ones under which a dependency can die while its dependents live);
+    // thorough runs every shape under every profile.
+    let groups: Vec<(Dag, u8)> = dags
+        .iter()
+        .flat_map(|d| profiles.iter().map(move |p| (*d, *p)))
+        .filter(|(d, p)| !(quick && matches!(d, Dag::ChainReversed | Dag::ChainMixed) && !matches!(p, 1 | 3)))
+        .collect();
     let tasks: Vec<(Dag, u8, Pass)> = groups.iter().flat_map(|(d, p)| passes.iter().map(move |ps| (*d, *p, ps.clone()))).collect();
     let results: Vec<PassResult> = tasks.par_iter().map(|(d, p, ps)| explore_pass(*d, *p, ps, opts)).collect();
 
@@ -310,7 +318,7 @@ pub fn run(args: &Args) -> i32 {
     let plans: Vec<u8> = if quick { vec![0, 3] } else { (0..persist::N_PLANS).collect() };
     let points = persist::all_points(&plans);
     // SQLite serialises in-process work on global mutexes; a small pool is as fast as a large one.
-    let pool = rayon::ThreadPoolBuilder::new().num_threads(4).build().unwrap_or_else(|e| mc_core::machinery_error(&format!("C18: thread pool: {e}")));
+    let pool = rayon::ThreadPoolBuilder::new().num_threads(8).build().unwrap_or_else(|e| mc_core::machinery_error(&format!("C18: thread pool: {e}")));
     let lat: Vec<(usize, Result<&'static str, Viol>)> = pool.install(|| points.par_iter().enumerate().map(|(i, p)| (i, persist::check_point(p))).collect());
     run.eval_distinct(points.len() as u64);
     // One failure per violation key: the first lattice point (in enumeration order) that shows it;
